@@ -37,6 +37,7 @@ void Sim::reset() {
 	fdopen_fail = false;
 	archive_src = nullptr;
 	archive_ino = -1;
+	by_name_srcs.clear();
 	clock_on = false;
 	now = 0;
 	clock_reads = 0;
@@ -325,6 +326,10 @@ FILE *__wrap_fopen(const char *path, const char *mode) {
 	if (g_sim.fs->sys_open_read(path, ino, err) != 0) { errno = err; return nullptr; }
 	if (g_sim.fs->nodes[ino].type == 'd') {
 		// fopen("dir","rb") succeeds on Linux and reads fail with EISDIR; model as an empty unreadable stream
+	}
+	{
+		auto bn = g_sim.by_name_srcs.find(ino);
+		if (bn != g_sim.by_name_srcs.end() && bn->second) return bn->second->open_file();
 	}
 	if (ino == g_sim.archive_ino && g_sim.archive_src) {
 		FILE *f = g_sim.archive_src->open_file();
@@ -681,12 +686,18 @@ FILE *SimSource::open_file() {
 
 LHAInputStream *SimSource::open_stream() {
 	if (kind == "CB_SKIP" || kind == "CB_NOSKIP") {
+		if (prepos > 0) pos = (size_t) prepos;   // the caller's own reads came first
 		LHAInputStream *s = lha_input_stream_new(cb_type(kind == "CB_SKIP"), this);
 		if (s) g_sim.open_handles++;
 		return s;
 	}
 	FILE *f = open_file();
 	if (!f) return nullptr;
+	if (prepos > 0) {
+		// the caller has read a wrapper of its own from this FILE (or positioned it) before the library gets it
+		if (kind == "FILE_SEEK" && (prepos & 1)) fseek(f, (long) prepos, SEEK_SET);
+		else { Bytes tmp((size_t) prepos); size_t got = fread(tmp.data(), 1, tmp.size(), f); (void) got; }
+	}
 	return lha_input_stream_from_FILE(f);
 }
 
